@@ -117,6 +117,21 @@ def gen_cases(rng, n, quick):
         end = rng.choice([3, 4, 6, 8])
         t0 = rng.choice([0, 0, 0, 0, 1, 2])      # first time-stamps > 0: F-05c for bounded operators with begin > 0
         w = {v: gen_signal(rng, rng.choice([2, 3, 4, 5]), t0=t0, S=S, end=end + t0) for v in vs}
+        diffstart = False
+        if len(vs) > 1 and kind in ("untimed", "two_signal", "timed") and rng.random() < (0.15 if kind == "timed" else 0.35):
+            # the signals begin at different times: the output begins with the latest one, every sub-formula is evaluated on its
+            # own domain (Dense!SigD; seed C05-i: since over operands that begin at different times)
+            late = rng.choice(vs)
+            w[late] = gen_signal(rng, rng.choice([2, 3, 4]), t0=t0 + rng.choice([1, 2, 3]), S=S, end=end + t0)
+            diffstart = True
+            if kind == "untimed" and rng.random() < 0.4:
+                # shaped: a binary temporal / Boolean operator directly over one early and one late signal, below an unbounded operator
+                e_ = [v for v in vs if v != late][0]
+                at_ = lambda v_: pred(rng.choice(["ge", "le", "gt"]), var(v_), rng.choice([const(0), const(S), const(2 * S), un("neg", const(S))]))
+                inner = rng.choice([lambda: at_(e_), lambda: un("once", at_(e_)), lambda: un("hist", at_(e_)), lambda: bi("since", at_(e_), at_(e_))])()
+                phi = bi(rng.choice(["since", "since", "and", "or", "implies"]), *rng.sample([inner, at_(late)], 2))
+                if rng.random() < 0.4:
+                    phi = un(rng.choice(["once", "hist", "not"]), phi)
         allsp = {v: splits(len(w[v])) for v in vs}
         scheds = [{v: [(0, len(w[v]))] for v in vs},                              # everything at once
                   {v: [(k, k + 1) for k in range(len(w[v]))] for v in vs}]        # one sample at a time
@@ -135,7 +150,7 @@ def gen_cases(rng, n, quick):
                 evs += schedule_events(w, sc, k + 1)
             if k > 0:
                 rels.append({"rel": "same_fn", "x": 1, "y": k + 1})
-        cases.append(case(objs, evs, rels, kind=kind))
+        cases.append(case(objs, evs, rels, kind=kind, diffstart=diffstart))
     return cases
 
 
